@@ -31,6 +31,8 @@ CONSTANT FreeOrder      \* FALSE: worklist is processed smallest block first (de
 
 Mods  == ndJsonDeserialize(IOEnv.QBEWF_MODS)
 NMods == Len(Mods)
+(* process observations: [id, rc, errlen, parses, outlen, endsnl, fault] per run of cproc-qbe *)
+Obs   == ndJsonDeserialize(IOEnv.QBEWF_OBS)
 
 VARIABLES unit,      \* <<module index, function index>>; function index 0 = the module-level unit
           phase,     \* "judge" -> ("flow" ->)* "done"
@@ -319,9 +321,11 @@ ItemOK(it) ==
     [] OTHER -> FALSE
 Bad_DataItemsValid(M) ==
   {M.data[i].name : i \in {j \in DOMAIN M.data :
-     ~(M.data[j].align \in Pow2 /\ \A k \in DOMAIN M.data[j].items : ItemOK(M.data[j].items[k]))}}
+     ~(M.data[j].align \in Pow2 \cup {0} /\ \A k \in DOMAIN M.data[j].items : ItemOK(M.data[j].items[k]))}}
 DataItemsValid(M) == Bad_DataItemsValid(M) = {}
 
+(* `data $x = { ... }` without an align clause gets QBE's default alignment 8 *)
+EffAlign(d) == IF d.align = 0 THEN 8 ELSE d.align
 ClsSize == [b |-> 1, h |-> 2, w |-> 4, l |-> 8, s |-> 4, d |-> 8]
 ItemSize(it) == IF it.k = "z" \/ it.k = "str" THEN it.n ELSE ClsSize[it.cls] * it.n
 DataBytes(d) == FoldLeft(LAMBDA acc, it : acc + ItemSize(it), 0, d.items)
@@ -330,7 +334,7 @@ DataBytes(d) == FoldLeft(LAMBDA acc, it : acc + ItemSize(it), 0, d.items)
 Bad_DataSize(M) ==
   {M.data[i].name : i \in {j \in DOMAIN M.data :
      LET d == M.data[j]
-     IN ~d.big /\ d.csize >= 0 /\ ~(DataBytes(d) = d.csize /\ d.align >= d.calign)}}
+     IN ~d.big /\ d.csize >= 0 /\ ~(DataBytes(d) = d.csize /\ EffAlign(d) >= d.calign)}}
 DataSize(M) == Bad_DataSize(M) = {}
 
 (* ------------------------------------------------------------------------ *)
@@ -373,18 +377,44 @@ StaticWellFormed(M) ==
   /\ \A f \in DOMAIN M.funcs : FuncFailures(M, M.funcs[f]).failed = {}
 
 (* ------------------------------------------------------------------------ *)
+(* Process clause: "status 0 is never returned with truncated, interleaved-  *)
+(* with-diagnostic or otherwise malformed output".                           *)
+(*   fault = "none": an ordinary run; otherwise the output channel was made  *)
+(*   unable to take the whole (non-empty) output: /dev/full, closed          *)
+(*   descriptor, file size limit below the output size.                      *)
+ObsWhere(P(_)) == {Obs[i].id : i \in {j \in DOMAIN Obs : P(Obs[j])}}
+Bad_Exit0StderrEmpty     == ObsWhere(LAMBDA o : o.rc = 0 /\ o.errlen # 0)
+Bad_Exit0OutputParses    == ObsWhere(LAMBDA o : o.rc = 0 /\ ~o.parses)
+Bad_Exit0EndsInNewline   == ObsWhere(LAMBDA o : o.rc = 0 /\ o.outlen > 0 /\ ~o.endsnl)
+Bad_WriteFailureNotExit0 == ObsWhere(LAMBDA o : o.fault # "none" /\ o.rc = 0)
+ProcFailures ==
+  LET R(name, bad) == IF bad = {} THEN {} ELSE {[ob |-> name, at |-> SetToSeq(bad)]}
+  IN     R("Exit0StderrEmpty", Bad_Exit0StderrEmpty)
+    \cup R("Exit0OutputParses", Bad_Exit0OutputParses)
+    \cup R("Exit0EndsInNewline", Bad_Exit0EndsInNewline)
+    \cup R("WriteFailureNotExit0", Bad_WriteFailureNotExit0)
+ProcClause == ProcFailures = {}
+
+(* ------------------------------------------------------------------------ *)
 (* The machine                                                               *)
-Verdict(m, fname, kind, failed, n) ==
-  PrintT("VCASE " \o ToJson([m |-> Mods[m].id, f |-> fname, k |-> kind, failed |-> SetToSeq(failed), n |-> n]))
+VerdictId(mid, fname, kind, failed, n) ==
+  PrintT("VCASE " \o ToJson([m |-> mid, f |-> fname, k |-> kind, failed |-> SetToSeq(failed), n |-> n]))
+Verdict(m, fname, kind, failed, n) == VerdictId(Mods[m].id, fname, kind, failed, n)
 
 Init ==
-  \E m \in 1..NMods : \E f \in 0..Len(Mods[m].funcs) :
-    /\ unit = <<m, f>>
-    /\ phase = "judge"
-    /\ fa = <<>> /\ In = <<>> /\ work = {} /\ iters = 0
+  /\ \/ unit = <<0, 0>>                                              \* the process-clause unit
+     \/ \E m \in 1..NMods : \E f \in 0..Len(Mods[m].funcs) : unit = <<m, f>>
+  /\ phase = "judge"
+  /\ fa = <<>> /\ In = <<>> /\ work = {} /\ iters = 0
+
+JudgeProc ==
+  /\ phase = "judge" /\ unit = <<0, 0>>
+  /\ VerdictId("", "", "proc", ProcFailures, Len(Obs))
+  /\ phase' = "done"
+  /\ UNCHANGED <<unit, fa, In, work, iters>>
 
 JudgeModule ==
-  /\ phase = "judge" /\ unit[2] = 0
+  /\ phase = "judge" /\ unit[2] = 0 /\ unit[1] > 0
   /\ Verdict(unit[1], "", "module", ModuleFailures(Mods[unit[1]]), Len(Mods[unit[1]].data))
   /\ phase' = "done"
   /\ UNCHANGED <<unit, fa, In, work, iters>>
@@ -418,7 +448,7 @@ Finish ==
   /\ phase' = "done"
   /\ UNCHANGED <<unit, fa, In, work, iters>>
 
-Next == JudgeModule \/ JudgeFunc \/ (\E b \in work : Propagate(b)) \/ Finish
+Next == JudgeProc \/ JudgeModule \/ JudgeFunc \/ (\E b \in work : Propagate(b)) \/ Finish
 
 Spec == Init /\ [][Next]_vars
 
